@@ -246,8 +246,44 @@ func chainCase(d int, ending int, ud bool) []Op {
 	return g.ops
 }
 
+// presentFieldCase: the field exists with a value that is not nil but easy to mistake for "absent" (false, 0, "") — an
+// event handler must not run for it: indexing returns the raw value, assignment is a raw assignment (manual §2.8: the
+// handler is consulted only when the raw value is nil). Every API entry next to the Lua forms (wave-6 seeded change
+// C10-m12: SetField treated a present `false` as absent).
+func presentFieldCase(val string, handlerTable bool) []Op {
+	g := &metaGen{}
+	g.add("fn", "1", c04sx("H"))
+	g.add("tbl", "1")
+	g.add("tbl", "2")
+	g.add("tbl", "1001")
+	h := "g1"
+	if handlerTable {
+		h = "t2"
+	}
+	g.add("set", "1001", c04sx("__index"), h)
+	g.add("set", "1001", c04sx("__newindex"), h)
+	g.add("mt", "t1", "t1001")
+	modes := []string{"api", "apif", "apig", "lua", "luak", "global"}
+	for _, md := range modes {
+		g.add("rawset", "lua", "t1", c04sx("k"), val)
+		g.add("index", md, "t1", c04sx("k"))
+		g.add("newindex", md, "t1", c04sx("k"), "i5")
+		g.add("index", "api", "t1", c04sx("k"))
+		g.add("index", "api", "t2", c04sx("k"))
+		g.add("rawset", "lua", "t2", c04sx("k"), "nil")
+		// and assigning false / nil over a present value stays raw, too
+		g.add("newindex", md, "t1", c04sx("k"), "F")
+		g.add("newindex", md, "t1", c04sx("k"), "T")
+		g.add("index", "api", "t1", c04sx("k"))
+	}
+	return g.ops
+}
+
 func chainCases() [][]Op {
 	var res [][]Op
+	for _, val := range []string{"F", "T", "i0", c04sx(""), "nil"} {
+		res = append(res, presentFieldCase(val, false), presentFieldCase(val, true))
+	}
 	for _, d := range []int{1, 2, 3, 4, 99, 100, 101} {
 		for ending := 0; ending <= 3; ending++ {
 			for _, ud := range []bool{false, true} {
